@@ -6,3 +6,13 @@ package dbkit
 func (s *Semaphore) VerifAvailable() int {
 	return len(s.tokens)
 }
+
+// VerifHook, when set, is called when a token has been acquired ("sem.acquired")
+// and when one is about to be released ("sem.release").
+var VerifHook func(point string)
+
+func vhook(point string) {
+	if h := VerifHook; h != nil {
+		h(point)
+	}
+}
